@@ -1,4 +1,5 @@
 #include "multi_buffergroup.h"
+#include "verif_hooks.h"
 #include <string>
 #include <iostream>
 
@@ -26,13 +27,17 @@ loadstate_t iobuffer::load_buffer(FILE *fin, bool ispadding)
 {
   u32_t load = fread(b, 1, sum, fin);
   bool readover = feof(fin);
+  WV_POINT(WVP_IO_LOAD_READ, this);
   tail = load & 0xf;
   total = load >> 4;
+  WV_POINT(WVP_IO_LOAD_TOTAL, this);
   now = 0;
+  WV_POINT(WVP_IO_LOAD_NOW, this);
   if (ispadding && (load != sum))
   {
     u8_t padding = 16 - tail;
     memset(b[total++] + tail, padding, padding);
+    WV_POINT(WVP_IO_LOAD_PAD, this);
     isfinal = true;
     return FINAL;
   }
@@ -50,6 +55,7 @@ ispadding:是否填充
 */
 void iobuffer::export_buffer(FILE *fout, bool ispadding)
 {
+  WV_POINT(WVP_IO_EXPORT, this);
   if (isfinal)
   {
     u8_t padding = ispadding ? 0 : b[now - 1][15];
@@ -95,6 +101,7 @@ void bufferctrl::set_ready(bool load)
     state = INV;
     live_num--;
   }
+  WV_EVENT(WVE_STATE, this, state, 0);
   cv_ready.notify_all();
   locker.unlock();
 }
@@ -107,6 +114,7 @@ void bufferctrl::set_update()
   if (state == READY)
   {
     state = UPDATING;
+    WV_EVENT(WVE_STATE, this, state, 1);
     cv_update.notify_all();
   }
   locker.unlock();
@@ -125,6 +133,8 @@ void buffergroup::set_buffergroup(u32_t size, FILE *fin, FILE *fout, bool ispadd
   this->ispadding = ispadding;
   this->buflst = new iobuffer[size];
   this->ctrl = new bufferctrl[size];
+  WV_EVENT(WVE_GROUP_BUF, this->buflst, size, sizeof(iobuffer));
+  WV_EVENT(WVE_GROUP_CTRL, this->ctrl, size, sizeof(bufferctrl));
 };
 /*
 get_instance:获取实例
@@ -163,7 +173,10 @@ bool buffergroup::turn_iter()
   if (!bufferctrl::haslive())
     return false;
   do
+  {
+    WV_POINT(WVP_IO_TURN, this);
     turn = (turn + 1) % size;
+  }
   while (ctrl[turn].cmpstate(INV));
   return true;
 };
@@ -174,14 +187,23 @@ return:表项地址，若缓冲区已经读取完毕返回NULL
 */
 u8_t *buffergroup::require_buffer_entry(const u8_t id)
 {
+  WV_EVENT(WVE_WORKER_ENTER, NULL, id, 0);
+  WV_POINT(WVP_GET_ENTRY, &buflst[id]);
   u8_t *result = buflst[id].get_entry();
+  WV_EVENT(WVE_TAKE, result, id, 0);
   if (result == NULL)
   {
     ctrl[id].set_update();
     ctrl[id].wait_ready();
+    WV_POINT(WVP_WORKER_STATE, &ctrl[id]);
     if (ctrl[id].cmpstate(READY))
+    {
+      WV_POINT(WVP_GET_ENTRY, &buflst[id]);
       result = buflst[id].get_entry();
+      WV_EVENT(WVE_TAKE, result, id, 1);
+    }
   }
+  WV_POINT(WVP_WORKER_RETURN, result);
   return result;
 }
 /*
@@ -191,13 +213,20 @@ printload:过程打印函数
 void buffergroup::buffer_update(const std::function<void(std::string, size_t)> &printload)
 {
   loadstate_t loadstate = NODATA;
+  WV_POINT(WVP_IO_STATE, &ctrl[turn]);
   if (ctrl[turn].cmpstate(UPDATING))
   {
+    WV_EVENT(WVE_FLUSH_BEGIN, &buflst[turn], turn, 0);
     buflst[turn].export_buffer(fout, ispadding);
+    WV_EVENT(WVE_FLUSH_END, &buflst[turn], turn, 0);
     printload("Tid " + std::to_string(turn), buflst[turn].get_size());
   }
   if (!over)
+  {
+    WV_EVENT(WVE_FILL_BEGIN, &buflst[turn], turn, 0);
     loadstate = buflst[turn].load_buffer(fin, ispadding);
+    WV_EVENT(WVE_FILL_END, &buflst[turn], turn, loadstate);
+  }
   over = loadstate != FULL;
   ctrl[turn].set_ready(loadstate != NODATA);
 }
